@@ -121,6 +121,8 @@ func e2eCases() []e2eCase {
 			finding: map[string]string{"a3": kInvokeMiss, "a9": kInvokeMiss}},
 		{name: "source-function-value-anchored-package", mode: "taint", config: oneSource("package: \"^vmod$\"\n        method: \"^source$\"\n        context: \"a4\""), expect: all("a4"),
 			finding: map[string]string{"a4": kFvMiss}},
+		{name: "source-function-value-anchored-package-no-context", mode: "taint", config: oneSource("package: \"^vmod$\"\n        method: \"^source$\""), expect: all("a1", "a4", "a7"),
+			finding: map[string]string{"a4": "alias-package-prefix"}}, // regression case of the repair 95e1c24
 		{name: "source-context", mode: "taint", config: oneSource("package: \"^vmod$\"\n        method: \"^source$\"\n        context: \"a1$\""), expect: all("a1")},
 		{name: "sink-invoke-receiver-anchored", mode: "taint", config: oneSink("method: \"^Put$\"\n        receiver: \"^Putter$\""), expect: all("b5", "b10"),
 			finding: map[string]string{"b5": kSinkInvM, "b10": kSinkInvM}},
